@@ -101,6 +101,7 @@ class Seq(object):
     self.instr = instrumentation
     random.seed(777)
     self.fake = fakereactor.FakeReactor()
+    self.fake.transport_hw = getattr(ns, 'transport_hw', None)
     client.reactor = self.fake
     instrumentation.stats.clear()
     state.metricReceiversPaused = False
@@ -361,6 +362,8 @@ class Seq(object):
     c = self.connector(i)
     if c is None or c.state != 'connected' or c.protocol is None or not c.protocol.paused:
       return False
+    if hasattr(c.transport, 'flush'):
+      c.transport.flush()          # the socket buffer drained
     c.protocol.resumeProducing()
 
   def ev_adv_defer(self, i):
@@ -469,6 +472,7 @@ class Seq(object):
       if missing:
         self.viol('conservation/buffer-lost', 'ids %r were buffered while no destination was available and are neither buffered nor re-injected any more' % missing)
     self.counters['writes_decoded'] = sum(len(self.written(d)) for d in self.dests)
+    self.counters['pauses_from_inside_write'] = sum(getattr(t, 'pauses_from_write', 0) for _, t in self.fake.transports)
 
   # ---------------------------------------------------------------------------- quiescence (C09 relay side)
   def quiesce(self, limit=400, keep_down=()):
@@ -492,6 +496,8 @@ class Seq(object):
             c.h_connection_made()
             progressed = True
         elif c.state == 'connected' and c.protocol is not None and c.protocol.paused:
+          if hasattr(c.transport, 'flush'):
+            c.transport.flush()
           c.protocol.resumeProducing()
           progressed = True
       calls = self.fake.getDelayedCalls()
